@@ -57,7 +57,7 @@ pub fn replay(args: &[String]) {
     let log: Log = Rc::new(RefCell::new(vec![]));
     let mut base = sdk_context();
     base.commands.set(Box::new(Emit { name: "emit".into(), log: log.clone(), with_vars: false })).unwrap();
-    let setup = "arr = array a \"b c\" \"\"\nmp = map\nmap_put ${mp} k \"v w\"\nst = set_new x y\nrel = array z\nrelease ${rel}\ntwo = range 0 2\nfifty = range 0 50\nkeepme = set 1\nother = set \"o v\"\n";
+    let setup = "arr = array a \"b c\" \"\"\nmp = map\nmap_put ${mp} k \"v w\"\nst = set_new x y\nrel = array z\nrelease ${rel}\ntwo = range 0 2\nfifty = range 0 50\nkeepme = set 1\nother = set \"o v\"\nscope::array_concat_keep = set kept\nscope::array_contains_keep = set kept\nscope::array_is_empty_keep = set kept\nscope::array_join_keep = set kept\nscope::map_contains_key_keep = set kept\nscope::map_contains_value_keep = set kept\nscope::map_is_empty_keep = set kept\nscope::set_from_array_keep = set kept\nscope::set_is_empty_keep = set kept\nscope::is_windows_keep = set kept\nscope::uname_keep = set kept\nscope::printenv_keep = set kept\nscope::glob_cp_keep = set kept\nscope::join_path_keep = set kept\nscope::glob_chmod_keep = set kept\nscope::sha256sum_keep = set kept\nscope::sha512sum_keep = set kept\nscope::base64_keep = set kept\nscope::concat_keep = set kept\nscope::unset_keep = set kept\n";
     let ctx0 = run_guarded(setup, base, Some(quiet_env())).unwrap().unwrap();
     let mut s = Summary::new();
     let (mut cases, mut invocations) = (0u64, 0u64);
@@ -151,7 +151,7 @@ pub fn record(args: &[String]) {
         std::fs::create_dir_all(dir.join("d")).unwrap();
         std::fs::write(dir.join("f.txt"), "F").unwrap();
         std::env::set_current_dir(&dir).unwrap();
-        let setup = "arr = array a \"b c\" \"\"\nmp = map\nmap_put ${mp} k \"v w\"\nst = set_new x y\nrel = array z\nrelease ${rel}\nkeepme = set 1\nother = set \"o v\"\n";
+        let setup = "arr = array a \"b c\" \"\"\nmp = map\nmap_put ${mp} k \"v w\"\nst = set_new x y\nrel = array z\nrelease ${rel}\nkeepme = set 1\nother = set \"o v\"\nscope::array_concat_keep = set kept\nscope::array_contains_keep = set kept\nscope::array_is_empty_keep = set kept\nscope::array_join_keep = set kept\nscope::map_contains_key_keep = set kept\nscope::map_contains_value_keep = set kept\nscope::map_is_empty_keep = set kept\nscope::set_from_array_keep = set kept\nscope::set_is_empty_keep = set kept\nscope::is_windows_keep = set kept\nscope::uname_keep = set kept\nscope::printenv_keep = set kept\nscope::glob_cp_keep = set kept\nscope::join_path_keep = set kept\nscope::glob_chmod_keep = set kept\nscope::sha256sum_keep = set kept\nscope::sha512sum_keep = set kept\nscope::base64_keep = set kept\nscope::concat_keep = set kept\nscope::unset_keep = set kept\n";
         let mut ctx = run_guarded(setup, base.clone(), Some(quiet_env())).unwrap().unwrap();
         for _ in 0..(1 + r.below(len)) {
             if r.chance(1, 4) {
